@@ -498,6 +498,17 @@ pub fn all_blocked(tids: &[i32], socks: &[RawFd]) -> bool {
     sample()
 }
 
+/// One look at the threads: is every one of them asleep in a blocking system call right now (parked at a hold point, waiting in
+/// epoll / a socket read)?  Used by the schedule replays to tell "nothing more is coming" from "the machine is slow": a thread
+/// that is runnable or running has not finished what the last command set in motion.
+pub fn blocked_now(tids: &[i32]) -> bool {
+    const BLOCKING: [i64; 27] = [0, 1, 7, 23, 35, 42, 43, 44, 45, 46, 47, 61, 202, 232, 230, 270, 271, 281, 288, 63, 73, 207, 212, 98, 22, 101, 115];
+    tids.iter().all(|t| {
+        let (st, nr) = thread_state(*t);
+        *t != 0 && (st == 'X' || ((st == 'S' || st == 'D') && BLOCKING.contains(&nr)))
+    })
+}
+
 /// Kernel thread ids of the threads of this process whose name is `name`.
 pub fn tids_named(name: &str) -> Vec<i32> {
     let mut v = Vec::new();
